@@ -214,7 +214,9 @@ Clauses(c) ==
     [] c.site = "fill_in_let" -> FillInLet(c)
     [] c.site = "fill_in_map" -> FillInMap(c)
     [] c.site = "fill_in_let_map" -> FillInLetMap(c)
-    [] c.site = "expand_subcircuits" -> ExpandSub(c)
+    \* (_defs: with caller-supplied prepare / measure definitions, c.prep / c.meas name them; _again: the plain call made
+    \*  after a call with other definitions on the same circuit object - judged exactly like a first call)
+    [] c.site \in {"expand_subcircuits", "expand_subcircuits_defs", "expand_subcircuits_again"} -> ExpandSub(c)
     [] OTHER -> {"unknown_site"}
 
 Triggers(c) ==
